@@ -160,10 +160,11 @@ class Acc:
         self.caps = []
         self.known = collections.Counter()
 
-    def violation(self, case, key, reason):
+    def violation(self, case, key, reason, order=None):
         self.nviol += 1
         if len(self.viol) < MAXV or not any(v["key"] == key for v in self.viol):
-            self.viol.append({"case": enc(case), "key": key, "reason": reason})
+            self.viol.append({"case": enc(case), "key": key, "reason": reason,
+                              "ord": None if order is None else list(order)})
 
     def sample(self, case, every=1):
         if len(self.samples) < 2:
@@ -288,11 +289,15 @@ def run_check(pid, tier, seed, workers=None):
             tot[k] += r[k]
         counters.update(r["counters"])
         outcomes |= r["outcomes"]
-        viol += r["viol"]
+        for v in r["viol"]:
+            v["shard"] = r["idx"]
+            viol.append(v)
         caps += r["caps"]
         if len(samples) < 4:
             samples += r["samples"][:1]
 
+    # canonical order: simplest case first, independent of the worker count
+    viol.sort(key=lambda v: (v.get("ord") is None, v.get("ord") or [], v["shard"]))
     # ---- triage: known findings vs. violations
     known = [k for k in load_known() if k.get("property") == pid and k.get("status") == "open"]
     reported, known_hit, unknown = [], {}, []
